@@ -6,6 +6,8 @@ import (
 	"go/ast"
 	"go/types"
 	"os"
+
+	"golang.org/x/tools/go/ssa"
 	"regexp"
 	"runtime"
 	"sort"
@@ -32,6 +34,14 @@ func main() {
 		cmdReplay(os.Args[2:])
 	case "loops":
 		cmdLoops(os.Args[2:])
+	case "mods":
+		cmdMods(os.Args[2:])
+	case "bless":
+		cmdBless(os.Args[2:])
+	case "bounded":
+		cmdBounded(os.Args[2:])
+	case "gencov":
+		cmdGenCov(os.Args[2:])
 	default:
 		fmt.Fprintln(os.Stderr, "unknown command", os.Args[1])
 		os.Exit(2)
@@ -250,5 +260,71 @@ func cmdLoops(args []string) {
 			}
 			return true
 		})
+	}
+}
+
+func cmdMods(args []string) {
+	fs := flag.NewFlagSet("mods", flag.ExitOnError)
+	repo := fs.String("repo", "/repo", "repository")
+	fn := fs.String("fn", "", "function name")
+	fs.Parse(args)
+	e, err := loadEngine(*repo)
+	if err != nil {
+		fmt.Fprintln(os.Stderr, err)
+		os.Exit(2)
+	}
+	if *fn == "" {
+		debugAllRoots(e)
+		return
+	}
+	f := e.funcs[*fn]
+	if f == nil {
+		fmt.Fprintln(os.Stderr, "no such function")
+		os.Exit(2)
+	}
+	m := e.mods[f]
+	if m.All {
+		fmt.Println("ALL because", m.Why)
+		return
+	}
+	for _, n := range m.names() {
+		fmt.Printf("%-50s %d\n", n, m.Arr[n])
+	}
+}
+
+func init() {
+	debugAllRoots = func(e *Engine) {
+		for _, f := range e.order {
+			m := newModSet()
+			for _, b := range f.Blocks {
+				for _, ins := range b.Instrs {
+					if c, ok := ins.(ssa.CallInstruction); ok {
+						e.callMods(f, c, m, func(*ssa.Function) {})
+					}
+				}
+			}
+			if m.All {
+				fmt.Printf("direct ALL: %-50s %s\n", e.fname(f), m.Why)
+			}
+		}
+	}
+}
+
+var debugAllRoots func(e *Engine)
+
+func cmdBounded(args []string) {
+	fs := flag.NewFlagSet("bounded", flag.ExitOnError)
+	repo := fs.String("repo", "/repo", "repository")
+	prop := fs.String("prop", "", "property")
+	tier := fs.String("tier", "quick", "tier")
+	fs.Parse(args)
+	r := runBounded(*repo, verifDir(), *prop, *tier, 1)
+	if r == nil {
+		fmt.Println("no harness")
+		return
+	}
+	fmt.Printf("bound=%s cases=%d distinct=%d failures=%d wall=%.1fs err=%s\n", r.Bound, r.Cases, r.Distinct, len(r.Failures), r.WallS, r.Error)
+	for _, f := range r.Failures {
+		fmt.Printf("  failure: %v\n", f)
 	}
 }
